@@ -300,7 +300,7 @@ class P:
             if m:
                 self.skip_semicolon()
                 return ("construct", m.group(1), m.group(2), m.group(3))
-            m = re.fullmatch(r"Item\*(\w+)=\(Item\*\)&value", text)
+            m = re.fullmatch(r"Item\*const(\w+)=\(Item\*\)&value", text) or re.fullmatch(r"Item\*(\w+)=\(Item\*\)&value", text)
             if m:
                 self.skip_semicolon()
                 return ("decl", "Item*", m.group(1), ("item_of_value",))
@@ -445,6 +445,16 @@ class P:
             if op not in ("->", "."):
                 raise Refuse(f"{self.fn}: operator `{op}` is outside the translated subset")
             f = self.eat()
+            if IDENT.match(f) and self.peek() == "(" and op == "." and a == ("id", "other"):
+                self.eat("(")
+                args = []
+                while self.peek() != ")":
+                    args.append(self.expr())
+                    if self.peek() == ",":
+                        self.eat(",")
+                self.eat(")")
+                a = ("mcall", a, f, args)
+                continue
             if not IDENT.match(f) or self.peek() == "(":
                 raise Refuse(f"{self.fn}: member `{f}` / member call is outside the translated subset")
             a = ("arrow" if op == "->" else "dot", a, f)
@@ -714,6 +724,16 @@ class Tr:
             if len(args) != 1 or args[0] != ("id", "key") or "key" not in env:
                 self.refuse("`hash` of something that is not the parameter `key`")
             return k(f"(h {env['key'][0]})", "nat", env, ind)
+        if name in ("append", "remove") and args == [("id", "other")] and self.spec.get("other"):
+            # the bulk member of HashSet, with the caller's `other`
+            alias = self.spec.get("other") == "self"
+            target = {("append", False): "appendAll", ("append", True): "appendSelf",
+                      ("remove", False): "removeAll", ("remove", True): "removeSelf"}[(name, alias)]
+            spec = self.gen.specs[self.cls].get(target)
+            if spec is None or not spec.get("done"):
+                self.refuse(f"call of `{name}(other)` before its translation")
+            return ([f"{ind}match {target} h t {'' if alias else 'o'} with", f"{ind}| none => none", f"{ind}| some t =>"] +
+                    k("()", "unit", self.wr(env), ind + "  "))
         if self.gen.helper_source(self.cls, name, len(args)) is not None:
             return self.call_helper(e, env, ind, k)
         target, argtys = self.gen.resolve(self, name, args, env)
@@ -761,7 +781,12 @@ class Tr:
                 tys = ["opt" if ty == "null" else ty for _, ty in vals]
                 hname, spec = self.gen.helper(self, name, tys, bool(env2.get("$data")))
                 env2 = self.wr(env2)
-                call = f"{hname} h t " + " ".join("none" if ty == "null" else t for t, ty in vals)
+                call = f"{hname} h t " + ("o " if spec.get("other") is True else "") + \
+                    " ".join("none" if ty == "null" else t for t, ty in vals if ty not in ("$other", "$self"))
+            if i < len(args) and args[i] == ("id", "other") and self.spec.get("other"):
+                vals.append(("o", "$self" if self.spec.get("other") == "self" else "$other"))
+                return go(i + 1, env2, ind2)
+            if i == len(args):
                 if spec["ret"] is None:
                     return ([f"{ind2}match {call} with", f"{ind2}| none => none", f"{ind2}| some t =>"] +
                             k("()", "unit", env2, ind2 + "  "))
@@ -772,6 +797,8 @@ class Tr:
             def after(t, ty, env3, ind3):
                 if ty.endswith("@B") or ty not in LEAN_TY and ty != "null":
                     self.refuse(f"argument of type {ty} in a call of the helper `{name}`")
+                if ty == "nat" and t in ("key", "value"):
+                    pass
                 vals.append((t, ty))
                 return go(i + 1, env3, ind3)
             return self.ev(args[i], env2, ind2, after)
@@ -1205,8 +1232,8 @@ class Swap:
     MEM = {"_begin.item": ("begin", "nxt"), "endItem.prev": ("endPrev", "opt"), "freeItem": ("freeItem", "opt"),
            "data": ("data", "data"), "blocks": ("blocks", "blocks"), "_size": ("size", "nat"), "capacity": ("cap", "nat")}
 
-    def __init__(self, cls, alias=False):
-        self.cls, self.n, self.alias = cls, 0, alias
+    def __init__(self, cls, alias=False, gen=None):
+        self.cls, self.n, self.alias, self.gen = cls, 0, alias, gen
         self.objs = "A" if alias else "AB"
 
     def refuse(self, msg):
@@ -1228,9 +1255,10 @@ class Swap:
         f = flat(e)
         if f is None:
             return None
-        obj = "A"
+        cur = getattr(self, "cur", "A")
+        obj = cur
         if f.startswith("other."):
-            obj, f = ("A" if self.alias else "B"), f[len("other."):]
+            obj, f = ("A" if self.alias else ("B" if cur == "A" else "A")), f[len("other."):]
         return (obj, f) if f in self.MEM else None
 
     def translate(self, stmts):
@@ -1254,10 +1282,12 @@ class Swap:
         if e[0] == "null":
             return ("none", "opt", None)
         if e[0] == "addr":
+            cur = getattr(self, "cur", "A")
+            oth = "A" if self.alias else ("B" if cur == "A" else "A")
             if e[1] == ("id", "endItem"):
-                return ("(Nxt.stl A.self)", "nxt", None)
+                return (f"(Nxt.stl {cur}.self)", "nxt", None)
             if e[1] == ("dot", ("id", "other"), "endItem"):
-                return (f"(Nxt.stl {'A' if self.alias else 'B'}.self)", "nxt", None)
+                return (f"(Nxt.stl {oth}.self)", "nxt", None)
             self.refuse("address-of other than `&endItem` / `&other.endItem`")
         v = None
         if e[0] == "id" and e[1] in loc:
@@ -1305,7 +1335,39 @@ class Swap:
         self.value_nn = lambda e: self.value(e, st, loc, nn)
         for i, s in enumerate(stmts):
             k = s[0]
-            if k == "decl":
+            self.cur = loc.get("$cur", "A")
+            if k == "$enter":
+                for pn, v in s[2].items():
+                    if pn in loc:
+                        self.refuse(f"the parameter `{pn}` of a helper hides a local")
+                    loc[pn] = v
+                loc["$cur"] = s[1]
+            elif k == "$leave":
+                loc["$cur"] = s[1]
+                for pn in s[2]:
+                    loc.pop(pn, None)
+            elif k == "return" and s[1] is None:
+                break
+            elif k == "if" and s[1][0] == "bin" and s[1][1] == "==" and {s[1][2], s[1][3]} == {("id", "this"), ("addr", ("id", "other"))}:
+                # `if(this == &other) …`: two distinct objects, or (`a.swap(a)`) the object itself
+                if self.alias:
+                    return lines + self.run(self.flatten([s[2]]) + stmts[i + 1:], st, loc, nn, ind)
+                if s[3] != ("block", []):
+                    return lines + self.run(self.flatten([s[3]]) + stmts[i + 1:], st, loc, nn, ind)
+            elif k == "expr" and s[1][0] in ("call", "mcall"):
+                e = s[1]
+                name, args = (e[1], e[2]) if e[0] == "call" else (e[2], e[3])
+                hs = self.gen.helper_source(self.cls, name, len(args)) if self.gen is not None else None
+                if hs is None or hs[0] != "void":
+                    self.refuse(f"call of `{name}` is outside the translated subset")
+                vals = [self.value(a, st, loc, nn) for a in args]
+                oth = "A" if self.alias else ("B" if self.cur == "A" else "A")
+                newcur = self.cur if e[0] == "call" else oth
+                p = P(tokenize(hs[2]), f"{self.cls}::{name}")
+                body = self.flatten(p.stmts())
+                spliced = [("$enter", newcur, dict(zip(hs[1], vals)))] + body + [("$leave", self.cur, hs[1])]
+                return lines + self.run(spliced + stmts[i + 1:], st, loc, nn, ind)
+            elif k == "decl":
                 ty, name, e = s[1], s[2], s[3]
                 if e is None or name in loc or ty not in ("Item*", "usize", "Item**", "ItemBlock*"):
                     self.refuse(f"declaration `{ty} {name}`")
@@ -1316,12 +1378,11 @@ class Swap:
                 self.assign(s[1][1], self.value(s[1][2], st, loc, nn), st, loc, lines, ind)
             elif k == "if":
                 c = s[1]
-                if c[0] != "assign":
-                    self.refuse("`if` whose condition is not of the form `(member = pointer)`")
-                v = self.value(c[2], st, loc, nn)
+                v = self.value(c[2] if c[0] == "assign" else c, st, loc, nn)
                 if v[1] not in ("opt", "item"):
                     self.refuse(f"condition of type {v[1]}")
-                self.assign(c[1], v, st, loc, lines, ind)
+                if c[0] == "assign":
+                    self.assign(c[1], v, st, loc, lines, ind)
                 rest = stmts[i + 1:]
                 if v[1] == "item":
                     return lines + self.run(self.flatten([s[2]]) + rest, st, loc, nn, ind)
@@ -1443,8 +1504,8 @@ CTORS = {"constructDefault": (r"(?<![\w~])CLS\s*\(\s*\)\s*:", []),
          "copyConstruct": (r"(?<![\w~])CLS\s*\(\s*const\s+CLS\s*&\s*other\s*\)\s*:", [])}
 
 
-ORDER = ["find", "removeValue", "removeIt", "removeKey", "removeFront", "removeBack", "insert", "clear", "assign", "appendAll",
-         "removeAll", "equal", "assignSelf", "appendSelf", "removeSelf", "size", "isEmpty", "contains", "front", "back", "append", "prepend"]
+ORDER = ["find", "removeValue", "removeIt", "removeKey", "removeFront", "removeBack", "insert", "clear", "appendAll",
+         "removeAll", "assign", "equal", "appendSelf", "removeSelf", "assignSelf", "size", "isEmpty", "contains", "front", "back", "append", "prepend"]
 
 
 class Gen:
@@ -1473,6 +1534,9 @@ class Gen:
             return None
         names = []
         for x in ps:
+            if re.fullmatch(r"const\s+" + cls + r"\s*&\s*other", x):
+                names.append("$other")
+                continue
             mm = re.fullmatch(r"(?:const\s+)?(?:Item|T|V|usize)\s*(?:\*\s*\*?|&)?\s*(?:const\s+)?(\w+)", x)
             if not mm:
                 raise Refuse(f"{cls}::{name}: parameter `{x}`")
@@ -1493,7 +1557,10 @@ class Gen:
         ret, pnames, body = self.helper_source(cls, name, len(tys))
         n = sum(1 for k_ in self.helpers[cls] if k_[0] == name)
         hname = name if n == 0 else f"{name}_{n + 1}"
-        spec = {"lean": hname, "params": list(zip(pnames, tys)), "ret": self.RET[ret], "helper": True}
+        spec = {"lean": hname, "params": [(pn, ty) for pn, ty in zip(pnames, tys) if pn != "$other"], "ret": self.RET[ret], "helper": True}
+        if "$other" in pnames:
+            oth = [ty for pn, ty in zip(pnames, tys) if pn == "$other"][0]
+            spec["other"] = "self" if oth == "$self" else True
         body = resolve_verify(body, f"{cls}::{name}")
         p = P(tokenize(body), f"{cls}::{name}")
         stmts = p.stmts()
@@ -1507,7 +1574,7 @@ class Gen:
         lines = htr.run(stmts, env, "  ")
         self.helper_depth -= 1
         sig = "".join(f" ({pn} : {LEAN_TY[ty]})" for pn, ty in spec["params"])
-        self.pending += htr.aux + [f"def {hname} (h : Nat → Nat) (t : PTable){sig} : Option {htr.ret_ty()} :=\n" + "\n".join(lines) + "\n"]
+        self.pending += htr.aux + [f"def {hname} (h : Nat → Nat) (t : PTable){htr.osig()}{sig} : Option {htr.ret_ty()} :=\n" + "\n".join(lines) + "\n"]
         spec["done"] = True
         self.specs[cls][hname] = spec
         self.helpers[cls][key] = hname
@@ -1557,7 +1624,7 @@ class Gen:
         self.append_is_insert_at_end[cls] = wrapper in flat
         parts, summary = [], []
         for name in ORDER:
-            if name not in specs:
+            if name not in specs or specs[name].get("helper"):
                 continue
             spec = specs[name]
             fn = name
@@ -1622,10 +1689,10 @@ class Gen:
         stmts = p.stmts()
         if p.peek() is not None:
             raise Refuse(f"{cls}::swap: trailing tokens")
-        sw = Swap(cls)
+        sw = Swap(cls, gen=self)
         lines = sw.translate(stmts)
         parts.append("def swap (A B : PTable) : Option (PTable × PTable) :=\n  let hA := A.items\n  let hB := B.items\n" + "\n".join(lines) + "\n")
-        lines = Swap(cls, alias=True).translate(stmts)
+        lines = Swap(cls, alias=True, gen=self).translate(stmts)
         parts.append("/-- `a.swap(a)`: `other` is the object itself -/\ndef swapSelf (A : PTable) : Option PTable :=\n  let hA := A.items\n" + "\n".join(lines) + "\n")
         summary.append(f"swap:{len(stmts)}")
         return parts, f"{cls}({' '.join(summary)} stmts)"
